@@ -97,3 +97,9 @@ claim("C13",
   "After validation, successful or not, the body must read back in full (byte-identical when skipping, failing or nothing was defaulted; otherwise the original plus exactly the defaults of the matched branches, ContentLength consistent); skipping must leave query and headers untouched; each absent parameter with a default must decode to that default and nothing else may appear; the forwarded request must validate again; a second validation must change nothing; the document must not be modified.",
   "Trusted: the reference injection (inject in props/c13), branch exclusivity by a required constant, the verif hook for decoding forwarded parameters. Form bodies with defaults are not generated (only JSON has a registered encoder).",
   "DESIGN.md#c13")
+
+claim("C14",
+  "model-based / differential property testing over handler behaviours: handler scripts (sequences of Header, WriteHeader, Write, Flush; all scripts of length <= 3 enumerated, longer ones sampled with rapid) x request kinds x strict x error callbacks x three front ends, each run compared with a reference run of the same script against a recorder that exposes the same optional interfaces, plus a gating model",
+  "The wrapped handler must run exactly once iff the request is routed and valid; otherwise the client gets 404 'not found' / 400 'bad request' or exactly one error-callback call and the handler never runs. Non-strict, or strict with a response that passes ValidateResponse: the client sees exactly the status and body (and the pre-commit headers) of the reference run. Strict with an invalid response: 500 'server error' or exactly one callback call, and no handler chunk reaches the client. No script makes the middleware panic.",
+  "Trusted: httptest.ResponseRecorder as the client-side writer (its content sniffing is excluded from header comparison), ValidateResponse for classifying the handler output (C08). Headers set after WriteHeader in strict mode are not asserted (the statement speaks of status and body).",
+  "DESIGN.md#c14")
